@@ -298,7 +298,7 @@ def run(p: Program, rep: Report, tier: str) -> None:
         rep.analysed(fn.fq)
         eff = helper_effects(fn)
         src = ast.unparse(fn.node)
-        handled = {e for e in events if re.search(rf"isinstance\(event, \(?[^)]*\b{e}\b", src)}
+        handled = {e for e in events if re.search(rf"isinstance\(\w+, \(?[^)]*\b{e}\b", src)}
         for e in events:
             if e in handled:
                 continue
@@ -352,7 +352,8 @@ def run(p: Program, rep: Report, tier: str) -> None:
         if not rc:
             rep.violation("R1.4", construct(fn, text="receive_data"), where(fn), f"{name}: chunks are not fed to the decoder")
         ret = [n for n in walk_shallow(fn.node) if isinstance(n, ast.Return)]
-        if not (ret and ast.unparse(ret[-1].value) == "items"):
+        appended = {e.text.split(".append(")[0] for e in eff if e.kind == "call" and ".append((field_name" in e.text}
+        if not (ret and isinstance(ret[-1].value, ast.Name) and appended == {"items"}):
             rep.violation("R1.4", construct(fn, text="return"), where(fn), f"{name}: does not return the accumulated items")
     if tier_a_equal(hs["parse_stream"], hs["parse_async_stream"]):
         rep.ok("R1.4", "parse_stream and parse_async_stream are equal after removing async/await and mapping awrite/aseek")
